@@ -382,4 +382,25 @@ example : (Key.slice (some 1) (some (-1)) 2).positions 6 = some [1, 3] := by dec
 example : (Key.idx [0, -1, 2]).positions 4 = some [0, 3, 2] := by decide
 example : (Key.mask [true, false, true]).positions 3 = some [0, 2] := by decide
 
+/-- **centring restores the cache whatever happened before**: for ANY heap contents (coordinates edited in place through a view, moved by
+an in-place kernel, …) the trajectory that `center_coordinates` was called on ends with its frames centred and its cached traces equal
+to the traces of its current frames -/
+theorem c03_center_restores (ops : FrameOps F T) (w : World F T) (i : Nat) (t : Traj T) (hi : w.trajs[i]? = some t) :
+    ∃ t', (step ops w (.center i)).trajs[i]? = some t' ∧
+      t'.traces = some ((frames (step ops w (.center i)).heap t').map ops.trace) ∧
+      ∀ f ∈ frames (step ops w (.center i)).heap t', ops.center f = f := by
+  have hlt : i < w.trajs.length := by
+    rcases List.getElem?_eq_some_iff.mp hi with ⟨h, _⟩; exact h
+  have hself : gather (mapAt ops.center w.heap t.rows) t.rows = (gather w.heap t.rows).map ops.center :=
+    gather_mapAt_self ops.center ops.center_idem w.heap t.rows t.rows (fun a ha => ha)
+  refine ⟨{ t with traces := some ((gather (mapAt ops.center w.heap t.rows) t.rows).map ops.trace) }, ?_, ?_, ?_⟩
+  · simp only [step, hi]
+    simp [hlt]
+  · simp only [step, hi, frames]
+  · intro f hf
+    simp only [step, hi, frames] at hf
+    rw [hself] at hf
+    obtain ⟨f0, _, rfl⟩ := List.mem_map.mp hf
+    exact ops.center_idem f0
+
 end MdVerif.TrajModel
